@@ -4,9 +4,9 @@ WT="$1"; OUT="$2"
 cd "$WT" || exit 2
 {
 echo "== demo WITH change"; PYTHONPATH=$WT timeout 1800 /venv/bin/python demo.py > /tmp/demo_with.$$ 2>&1; echo "exit=$?"; tail -3 /tmp/demo_with.$$
-git stash -q -- vectorizers
+git apply -R patch.diff   # (git stash is shared between worktrees: never use it here)
 echo "== demo WITHOUT change"; PYTHONPATH=$WT timeout 1800 /venv/bin/python demo.py > /tmp/demo_wo.$$ 2>&1; echo "exit=$?"; tail -2 /tmp/demo_wo.$$
-git stash pop -q
+git apply patch.diff
 echo "== test suite WITH change"
 PYTHONPATH=$WT /venv/bin/python -m pytest -q -p no:cacheprovider --timeout=1800 -n 8 --continue-on-collection-errors --junitxml=/tmp/junit.$$.xml vectorizers/tests > /tmp/pytest.$$ 2>&1
 tail -4 /tmp/pytest.$$
